@@ -82,20 +82,37 @@ Theorem C10_policy_classes :
   (forall e, final (IErr e) = if is_canceled e then RNil else RWrap e).
 Proof. split; [reflexivity|]. split; [exact recoverable_lit | reflexivity]. Qed.
 
-(* Cancellation -- full statement (kept visible; proved below only in its state-based form):
-   in every trace, after the Cancel mark no back-off wait of positive length completes, at most one
-   more DialAttempt, Task and Cleanup occur provided the tasks finishing after the cancellation
-   return nil / context.Canceled, and the run returns nil unless a clean-up failed or the return
-   value was already decided when the cancellation arrived. *)
-Definition C10_cancel_statement : Prop :=
-  forall sc pre post, dial_loop sc = pre ++ Cancel :: post ->
-    no_pos_wait post /\
-    ((forall k r, In (Task k r) post -> r = None \/ r = Some ECanceled) ->
-       (count_dials post <= 1)%nat /\ (count_tasks post <= 1)%nat /\ (count_cleanups post <= 1)%nat /\
-       exists pre' v, post = pre' ++ [Return v] /\
-         (v = RNil \/ In (Cleanup 0 false) (map (fun e => match e with Cleanup _ ok => Cleanup 0 ok | _ => e end) post) \/ pre' = [])).
+(* Cancellation.  The cancellation mark is unique; after it no back-off wait of positive length
+   completes; and if the tasks that finish after it return nil / context.Canceled then at most one
+   more dial attempt is made (two when the context was cancelled before the very first dial: that
+   dial is made unconditionally and, when it fails with a recoverable error, one more can slip
+   through the select race against the 0-delay timer), at most one more task runs and one more
+   clean-up, the run ends with a Return, and the value returned is nil unless a clean-up failed, or
+   the value was already decided when the cancellation arrived (nothing is dialled or run after it),
+   or the very first dial -- made although the context was already cancelled -- failed with a
+   non-recoverable error, which is reported. *)
+Definition benign (l : list event) : Prop := forall k r, In (Task k r) l -> r = None \/ r = Some ECanceled.
 
-(* proved part: from any state in which the context is cancelled,
+Theorem C10_cancel : forall sc pre post, dial_loop sc = pre ++ Cancel :: post ->
+  ~ In Cancel pre /\ ~ In Cancel post /\ no_pos_wait post /\
+  (benign post ->
+     (count_dials post <= (if Nat.eqb (count_dials pre) 0 then 2 else 1))%nat /\
+     (count_tasks post <= 1)%nat /\ (count_cleanups post <= 1)%nat /\
+     exists pre' v, post = pre' ++ [Return v] /\
+       (v = RNil \/ v = RCleanupErr \/
+        (count_dials post = 0%nat /\ count_tasks post = 0%nat) \/
+        (exists e, v = RWrap e /\ lit_recoverable e = false /\ count_dials pre = 0%nat /\
+                   count_tasks post = 0%nat /\ In (DialAttempt (Some e)) post))).
+Proof. exact cancel_full. Qed.
+
+(* the two-dials case: the context is cancelled before Dial is called, the first dial fails with a
+   recoverable error, the select race lets one more dial through *)
+Example C10_example_cancel_two_dials :
+  dial_loop (mkScript Advertise false true true [DScripted (Some ELinkNotReady) false] [] [] [true]) =
+  [Cancel; DialAttempt (Some ELinkNotReady); Wait 0; DialAttempt None; Task 0 None; Cleanup 0 true; Return RNil].
+Proof. vm_compute. reflexivity. Qed.
+
+(* state-based form: from any state in which the context is cancelled,
    - a re-initialisation makes at most one more dial attempt (the select race against the 0 timer),
      never sits out a back-off, and ends cancelled (-> Dial returns nil) or with a connection;
    - a back-off wait of positive length returns at once;
@@ -143,3 +160,4 @@ Print Assumptions C10_timeout_is_error.
 Print Assumptions C10_policy.
 Print Assumptions C10_policy_classes.
 Print Assumptions C10_cancel_partial.
+Print Assumptions C10_cancel.
